@@ -175,6 +175,34 @@ class Cons : public ASTConsumer {
       D->dump(J, false, ADOF_JSON);
       J << "\n";
     }
+    // implicit instantiations of a partial specialization that is written in a selected file while its primary template is
+    // not (std::less<vec_t<T,N>> in vec.h): clang lists them under the primary template, which the loop above skips
+    struct S : public RecursiveASTVisitor<S> {
+      std::vector<ClassTemplateSpecializationDecl *> found;
+      bool shouldVisitTemplateInstantiations() const { return true; }
+      bool VisitClassTemplateSpecializationDecl(ClassTemplateSpecializationDecl *D)
+      {
+        if (!isa<ClassTemplatePartialSpecializationDecl>(D) && D->getSpecializationKind() == TSK_ImplicitInstantiation) found.push_back(D);
+        return true;
+      }
+    } sv;
+    sv.TraverseDecl(C.getTranslationUnitDecl());
+    auto selected = [&](SourceLocation L) {
+      PresumedLoc PL = SM.getPresumedLoc(SM.getExpansionLoc(L));
+      if (!PL.isValid()) return false;
+      std::string fn = PL.getFilename();
+      for (auto &p : prefixes)
+        if (fn.compare(0, p.size(), p) == 0) return true;
+      return false;
+    };
+    for (auto *D : sv.found) {
+      auto P = D->getSpecializedTemplateOrPartial();
+      auto *PS = P.dyn_cast<ClassTemplatePartialSpecializationDecl *>();
+      if (!PS || !selected(PS->getLocation())) continue;
+      if (selected(D->getSpecializedTemplate()->getLocation())) continue;   // already under a dumped primary template
+      D->dump(J, false, ADOF_JSON);
+      J << "\n";
+    }
   }
 };
 class Act : public PluginASTAction {
